@@ -143,6 +143,9 @@ class Ellipsoid(Shape3D):
         if a > c:
             phi = np.arccos(c / a)
             m = (a**2 * (b**2 - c**2)) / (b**2 * (a**2 - c**2))
+            # m <= 1 mathematically; rounding can put it just above (nearly equal
+            # larger axes), where the elliptic integrals are not defined.
+            m = min(m, 1.0)
             elliptic_part = ellipeinc(phi, m) * np.sin(phi) ** 2
             elliptic_part += ellipkinc(phi, m) * np.cos(phi) ** 2
             elliptic_part /= np.sin(phi)
